@@ -44,6 +44,21 @@ func c04Params(tier string) []*kvops.Params {
 		}
 		out = append(out, p)
 	}
+	// non-initial start states (the key stored with an expiry and touched by a counter; a lock held):
+	// the same depth reaches two steps further into the histories that begin this way
+	for _, pre := range [][]clustermc.Ev{{ev("put", 0, 0, "PX"), ev("incr", 0, 1, "")}, {ev("lock", 0, 1, ""), ev("tick", 0, 1, "")}, {ev("put", 0, 0, ""), ev("expire", 0, 0, "")}} {
+		for _, c := range []cf{{3, 2, 1 << 16, "EN"}, {3, 3, 200, "EN"}} {
+			alpha := alpha
+			if c.table < 1024 {
+				alpha = append(append([]clustermc.Ev{}, alpha...), ev("fill", 0, 0, ""))
+			}
+			out = append(out, &kvops.Params{
+				Name:  fmt.Sprintf("N=%d R=%d table=%d entry=%s start=%s;%s", c.n, c.r, c.table, c.entry, pre[0].K+pre[0].S, pre[1].K),
+				Opts:  simcluster.Opts{N: c.n, Replicas: c.r, WriteQ: 1, ReadQ: 1, Partitions: 7, TableSize: c.table},
+				Entry: c.entry, DMap: "d", Keys: []string{"k"}, Alpha: alpha, Depth: depth - 1, Mirror: true, Pre: pre,
+			})
+		}
+	}
 	return out
 }
 
@@ -72,7 +87,7 @@ func init() {
 			perSpec = 1200
 		}
 		for _, p := range c04Params(c.Tier) {
-			if (p.Entry == "EO" || p.Entry == "EN" || p.Entry == "CC") && p.Opts.TableSize > 1024 {
+			if (p.Entry == "EO" || p.Entry == "EN" || p.Entry == "CC") && p.Opts.TableSize > 1024 && len(p.Pre) == 0 {
 				traces = append(traces, kvops.ConformTraces(p, 3, perSpec)...)
 			}
 		}
